@@ -1643,13 +1643,14 @@ class ExpanderHelper:
         """
 
         start = list(filter(None, self.tokens[: self.pos]))
+        inserted = list(filter(None, upper_helper.tokens))
 
         self.tokens = (
             start
-            + list(filter(None, upper_helper.tokens))
+            + inserted
             + list(filter(None, self.tokens[self.pos :]))
         )
-        self.pos = len(start)
+        self.pos = len(start) + len(inserted)
 
     def peek_tok(self):
         """
